@@ -41,6 +41,10 @@ pub enum GitOp {
     Run,
     /// the same with --begin <commit #n>
     RunFrom { begin: usize },
+    /// the file's line terminators flip between LF and CRLF, nothing else changes (content it never had)
+    Crlf { path: String },
+    /// git pack-refs --all (branch heads move from loose files into packed-refs; no content changes)
+    PackRefs,
 }
 
 #[derive(Clone, Debug, Default)]
@@ -93,6 +97,12 @@ impl RGit {
                 }
             }
             GitOp::RewriteSame { .. } => {}
+            GitOp::Crlf { path } => {
+                if let Some(c) = self.wt.get(path).cloned() {
+                    let n = if c.contains("\r\n") { c.replace("\r\n", "\n") } else { c.replace('\n', "\r\n") };
+                    self.wt.insert(path.clone(), n);
+                }
+            }
             GitOp::LinkDir { path, to } => {
                 self.wt.insert(path.clone(), format!("symlink -> {}", to));
             }
@@ -321,8 +331,13 @@ impl<'a> HistGen<'a> {
             let op = match self.rng.below(20) {
                 0..=3 => Some(GitOp::Create { path: self.new_path(false) }),
                 4..=6 => {
-                    let old = self.rng.chance(1, 5);
-                    self.existing(&wt).map(|p| if old { GitOp::EditOld { path: p } } else { GitOp::Edit { path: p } })
+                    let kind = self.rng.below(10);
+                    let plain: BTreeSet<String> = wt.iter().filter(|p| !p.ends_with("dirlink")).cloned().collect();
+                    match kind {
+                        0 | 1 => self.existing(&wt).map(|p| GitOp::EditOld { path: p }),
+                        2 => self.existing(&plain).map(|p| GitOp::Crlf { path: p }),
+                        _ => self.existing(&wt).map(|p| GitOp::Edit { path: p }),
+                    }
                 }
                 7 => self.existing(&wt).map(|p| GitOp::Delete { path: p }),
                 8 => {
@@ -350,7 +365,13 @@ impl<'a> HistGen<'a> {
                     let idx: BTreeSet<String> = self.model.index.keys().cloned().collect();
                     self.existing(&idx).map(|p| GitOp::Unstage { path: p })
                 }
-                16 | 17 => Some(GitOp::Commit { all: self.rng.chance(1, 2) }),
+                16 | 17 => {
+                    if self.rng.chance(1, 8) {
+                        Some(GitOp::PackRefs)
+                    } else {
+                        Some(GitOp::Commit { all: self.rng.chance(1, 2) })
+                    }
+                }
                 19 => {
                     // restore a path from any commit that has it
                     let nc = self.model.commits.len();
@@ -393,6 +414,11 @@ pub fn exec_repo_op(w: &mut World, op: &GitOp, model_after: &RGit) -> Result<(),
             Ok(())
         }
         GitOp::Delete { path } => std::fs::remove_file(w.root.join(path)).map_err(|e| format!("rm {}: {}", path, e)),
+        GitOp::Crlf { path } => match model_after.wt.get(path) {
+            Some(c) => write_managed(w, path, c),
+            None => Ok(()),
+        },
+        GitOp::PackRefs => w.git(&["pack-refs", "--all"]).map(|_| ()),
         GitOp::Empty { path } => {
             if model_after.wt.contains_key(path) {
                 w.write_bytes(path, b"")?;
